@@ -73,7 +73,7 @@ def tla_cfg(sc, status_texts=None):
     if "clock" in tgt:
         tgt["clock_b"] = list(int(tgt["clock"]).to_bytes(8, "little"))
         tgt.pop("clock")
-    for k in ("script", "handles", "cids", "inject", "caps", "pages", "corrupt"):
+    for k in ("script", "handles", "cids", "inject", "caps", "pages", "corrupt", "pagefail"):
         tgt.pop(k, None)
     drv = {"kind": sc["driver"]["kind"], "size": sc["driver"].get("size", 4000), "extended": 1,
            "route": sc["driver"].get("route", [])}
